@@ -10,6 +10,7 @@ import gzip
 import itertools
 import logging
 import os
+import uuid
 import shutil
 from enum import Enum, unique
 from collections import defaultdict
@@ -101,9 +102,11 @@ def open_indexed_fasta(reference, fai_file_name):
     gzi_file_name = reference + ".gzi"
     compressed = os.path.splitext(reference)[1].lower() in ['.gz', '.gzip', '.bgz']
     if is_outdated(fai_file_name) or (compressed and is_outdated(gzi_file_name)):
-        tmp_fai_file_name = "%s.%d.tmp" % (fai_file_name, os.getpid())
+        # process ids repeat across containers and cluster nodes that share the folder of the reference
+        unique_suffix = "%d.%s" % (os.getpid(), uuid.uuid4().hex)
+        tmp_fai_file_name = "%s.%s.tmp" % (fai_file_name, unique_suffix)
         if compressed:
-            tmp_gzi_file_name = "%s.%d.tmp" % (gzi_file_name, os.getpid())
+            tmp_gzi_file_name = "%s.%s.tmp" % (gzi_file_name, unique_suffix)
             try:
                 Fasta(reference, indexname=tmp_fai_file_name, gzi_indexname=tmp_gzi_file_name)
             except UnsupportedCompressionFormat:
